@@ -162,7 +162,7 @@ mod c03_vstore {
 
     type Fut<'a> = Pin<Box<dyn Future<Output = Result<(), Error>> + Send + 'a>>;
 
-    fn dump_batch(b: &Batch) -> String {
+    pub(super) fn dump_batch(b: &Batch) -> String {
         let mut out = format!(
             "f={} n={} e={}",
             b.first_record.map_or("-".to_string(), |r| usize::from(r).to_string()),
@@ -390,4 +390,278 @@ mod c03_vstore {
 // started itself (run gate `protocol/c02w<k>`).
 pub fn c02_note_push(gate: &crate::protocol::Gate) {
     crate::ipa_verif::c02::note_push(gate.as_ref());
+}
+
+// C16 (b21): called at the top of `Batch::validate` (guarded call in dzkp_validator.rs): the validation context's gate and
+// the batch index, forwarded to the registry of harness/c16.rs (which keeps only gates of the race suites' own worlds).
+pub fn c16_note_validate(gate: &crate::protocol::Gate, batch_index: usize) {
+    crate::ipa_verif::c16::note_validate(gate.as_ref(), batch_index);
+}
+
+// C03 (b21): c03_race — the proof batch of ONE helper's REAL `MaliciousDZKPValidator` under CONCURRENT `DZKPUpgraded::push`.
+//
+//   c03.race <ty> <T> <R> <records per batch> <gates> <seed>   ->   validated=<k> rounds=<R>[ first=<round>:<helper>:<why>]
+//
+// One TestWorld; each of the R rounds takes a fresh validate_record-style validator per helper (`malicious_contexts()`
+// hands out a fresh gate; total records = records per batch: exactly ONE proof batch), runs REAL honest multiplications
+// (`zkp_multiply` minus its last step: harness/c03.rs `multiply_unpushed`) of <ty> vectors for every record under <gates>
+// steps, and then, on every helper, T real OS threads (std::thread::scope, released together by a spin barrier) report
+// the intermediates through the REAL `DZKPUpgraded::push` of contexts narrowed to the gates: the (gate, record) items are
+// shuffled per helper and item j goes to thread j mod T, so at any moment the threads push DISTINCT (gate, record) pairs
+// into the SAME `Batch` behind the batcher mutex. Then (1) the stored table of every helper (`ipa_verif_state` +
+// `dump_batch`: anchor, number of multiplications, every gate's blocks) must be literally the table obtained by pushing the
+// same segments single-threaded in (gate, record) order into a `Batch::new(Some(0), rpb)`, and (2) every record of the batch
+// is validated on the three helpers (`validate_record`: the real proof) and the batch must be handed to the proof step
+// exactly once per helper (hook `c16_note_validate`). Nobody deviates: every round must pass whatever the scheduling
+// (`concurrent_push_eq_sequential`), so the suite is deterministic on a correct tree. If `push` is not ONE critical section
+// (clone the batch out under the lock, push outside, store back), a whole segment is lost: why = `table` and/or `f`.
+mod c03_race {
+    use std::sync::atomic::{AtomicBool, AtomicUsize, Ordering};
+
+    use bitvec::prelude::{BitVec, Lsb0};
+    use futures::{TryStreamExt, StreamExt, stream};
+
+    use super::super::{Batch, DZKPValidator, Segment, SegmentEntry};
+    use super::c03_vstore::dump_batch;
+    use crate::{
+        error::Error,
+        ff::boolean::Boolean,
+        ipa_verif::{
+            c03::{ORDER_GATES, multiply_unpushed},
+            proto::*,
+        },
+        protocol::{
+            RecordId,
+            context::{Context, DZKPContext, TEST_DZKP_STEPS, UpgradableContext, dzkp_field::DZKPCompatibleField},
+        },
+        secret_sharing::{FieldSimd, SharedValueArray, Vectorizable, replicated::semi_honest::AdditiveShare as Replicated},
+        seq_join::{SeqJoin, seq_join},
+        sharding::NotSharded,
+        test_fixture::{TestWorld, TestWorldConfig},
+    };
+
+    fn segment_of(bvs: &[BitVec<u8, Lsb0>]) -> Segment<'_> {
+        let e = |i: usize| SegmentEntry::from_bitslice(&bvs[i]);
+        Segment::from_entries(e(0), e(1), e(2), e(3), e(4), e(5), e(6))
+    }
+
+    fn race<const N: usize>(threads: usize, rounds: usize, rpb: usize, ngates: usize, seed: u64) -> String
+    where
+        Boolean: FieldSimd<N> + DZKPCompatibleField<N>,
+    {
+        let mut rng = Rng(seed ^ 0xC03_4ACE);
+        let rt = tokio::runtime::Handle::current();
+        let mut world = TestWorld::<NotSharded>::with_config(&TestWorldConfig::default().with_seed(rng.below(1 << 40)).with_timeout_secs(60));
+        let mut validated = 0usize;
+        let mut first_fail: Option<String> = None;
+        for round in 0..rounds {
+            // `malicious_contexts` hands out at most 999 gates per world
+            if round > 0 && round % 900 == 0 {
+                world = TestWorld::<NotSharded>::with_config(&TestWorldConfig::default().with_seed(rng.below(1 << 40)).with_timeout_secs(60));
+            }
+            let marker = format!("c03race{}x{round}x", seed % 1_000_000);
+            // honest inputs, replicated over the three helpers
+            let mut xs: [Vec<Replicated<Boolean, N>>; 3] = [vec![], vec![], vec![]];
+            let mut ys: [Vec<Replicated<Boolean, N>>; 3] = [vec![], vec![], vec![]];
+            for _ in 0..rpb {
+                let sx: [<Boolean as Vectorizable<N>>::Array; 3] = std::array::from_fn(|_| SharedValueArray::from_fn(|_| Boolean::from(rng.bool())));
+                let sy: [<Boolean as Vectorizable<N>>::Array; 3] = std::array::from_fn(|_| SharedValueArray::from_fn(|_| Boolean::from(rng.bool())));
+                for i in 0..3 {
+                    xs[i].push(Replicated::new_arr(sx[i].clone(), sx[(i + 1) % 3].clone()));
+                    ys[i].push(Replicated::new_arr(sy[i].clone(), sy[(i + 1) % 3].clone()));
+                }
+            }
+            let validators: Vec<_> = world
+                .malicious_contexts()
+                .into_iter()
+                .map(|ctx| ctx.narrow(&marker).set_total_records(rpb).dzkp_validator(TEST_DZKP_STEPS, rpb))
+                .collect();
+            let m_ctxs: Vec<_> = validators.iter().map(|v| v.context()).collect();
+            // phase 1: every multiplication runs to completion on the three helpers; nothing is recorded yet
+            let done: Vec<Result<Vec<Vec<Vec<BitVec<u8, Lsb0>>>>, Error>> = rt.block_on(futures::future::join_all(
+                m_ctxs.iter().zip(xs.iter().zip(ys.iter())).map(|(m_ctx, (x, y))| async move {
+                    let work = stream::iter(x.iter().zip(y.iter())).enumerate().map(|(i, (a, b))| {
+                        let m_ctx = m_ctx.clone();
+                        async move {
+                            let mut per_gate = vec![];
+                            for g in 0..ngates {
+                                let c = m_ctx.narrow(ORDER_GATES[g]);
+                                per_gate.push(if g % 2 == 0 {
+                                    multiply_unpushed::<N>(c, RecordId::from(i), a, b).await?
+                                } else {
+                                    multiply_unpushed::<N>(c, RecordId::from(i), b, a).await?
+                                });
+                            }
+                            Ok::<_, Error>(per_gate)
+                        }
+                    });
+                    seq_join(m_ctx.active_work(), work).try_collect().await
+                }),
+            ));
+            let done: Vec<Vec<Vec<Vec<BitVec<u8, Lsb0>>>>> = done.into_iter().map(|d| d.expect("harness: honest multiplication failed")).collect();
+            // phase 2: T threads per helper push DISTINCT (gate, record) items of the same batch through the real `push`
+            let gated: Vec<Vec<_>> = m_ctxs.iter().map(|c| (0..ngates).map(|g| c.narrow(ORDER_GATES[g])).collect()).collect();
+            let items: Vec<Vec<(usize, usize)>> = (0..3)
+                .map(|_| {
+                    let mut it: Vec<(usize, usize)> = (0..ngates).flat_map(|g| (0..rpb).map(move |r| (g, r))).collect();
+                    rng.shuffle(&mut it);
+                    it
+                })
+                .collect();
+            let total_threads = 3 * threads;
+            let arrived = AtomicUsize::new(0);
+            let panicked = AtomicBool::new(false);
+            let panic_msg = std::sync::Mutex::new(None::<String>);
+            std::thread::scope(|sc| {
+                for h in 0..3 {
+                    for t in 0..threads {
+                        let (items, gated, done, arrived, panicked, panic_msg) = (&items[h], &gated[h], &done[h], &arrived, &panicked, &panic_msg);
+                        sc.spawn(move || {
+                            arrived.fetch_add(1, Ordering::SeqCst);
+                            let mut spins = 0u32;
+                            while arrived.load(Ordering::Acquire) < total_threads {
+                                spins += 1;
+                                if spins % 4096 == 0 {
+                                    std::thread::yield_now();
+                                } else {
+                                    std::hint::spin_loop();
+                                }
+                            }
+                            let r = std::panic::catch_unwind(std::panic::AssertUnwindSafe(|| {
+                                for (g, r) in items.iter().skip(t).step_by(threads) {
+                                    gated[*g].push(RecordId::from(*r), segment_of(&done[*r][*g]));
+                                }
+                            }));
+                            if let Err(p) = r {
+                                let msg = p.downcast_ref::<String>().cloned().or_else(|| p.downcast_ref::<&str>().map(|s| (*s).to_string())).unwrap_or_default();
+                                if !msg.contains("PoisonError") {
+                                    panic_msg.lock().unwrap_or_else(|e| e.into_inner()).get_or_insert(canon(&msg));
+                                }
+                                panicked.store(true, Ordering::SeqCst);
+                            }
+                        });
+                    }
+                }
+            });
+            let mut bad: Option<String> = None;
+            if panicked.load(Ordering::SeqCst) {
+                // a push panicked under the batcher mutex (it is poisoned now): the round has failed, nothing more to ask
+                first_fail.get_or_insert(format!("{round}:0:push-panicked:{}", panic_msg.lock().unwrap_or_else(|e| e.into_inner()).clone().unwrap_or_default().replace(' ', "_")));
+                drop(gated);
+                drop(m_ctxs);
+                for v in validators {
+                    let _ = guarded(move || drop(v));
+                }
+                let _ = crate::ipa_verif::c16::take_validations(&marker);
+                continue;
+            }
+            // (1) the stored table = the in-order table
+            for h in 0..3 {
+                if bad.is_some() {
+                    break;
+                }
+                let state = validators[h].inner_ref.as_ref().unwrap().batcher.lock().unwrap().ipa_verif_state(dump_batch);
+                let slot = state.splitn(3, ':').nth(2).unwrap().to_string();
+                let got = slot.rsplitn(4, '.').last().unwrap().to_string();
+                let mut reference = Batch::new(Some(RecordId::from(0usize)), rpb);
+                for g in 0..ngates {
+                    for r in 0..rpb {
+                        reference.push(gated[h][g].gate().clone(), RecordId::from(r), segment_of(&done[h][r][g]));
+                    }
+                }
+                if got != dump_batch(&reference) || slot.contains('/') {
+                    bad = Some(format!("{round}:{}:table", h + 1));
+                }
+            }
+            // (2) the batch validates on the three helpers, handed to the proof step once per helper
+            let results: Vec<Vec<Result<(), Error>>> = rt.block_on(futures::future::join_all(
+                m_ctxs.iter().map(|ctx| futures::future::join_all((0..rpb).map(move |i| ctx.validate_record(RecordId::from(i))))),
+            ));
+            let handed = crate::ipa_verif::c16::take_validations(&marker);
+            if bad.is_none() {
+                bad = results.iter().enumerate().find_map(|(h, rs)| {
+                    rs.iter().find_map(|r| {
+                        r.as_ref().err().map(|e| {
+                            let k = match e {
+                                Error::DZKPValidationFailed | Error::ParallelDZKPValidationFailed => "f".to_string(),
+                                e => canon(&format!("{e:?}")).replace([' ', ','], "_"),
+                            };
+                            format!("{round}:{}:{k}", h + 1)
+                        })
+                    })
+                });
+            }
+            if bad.is_none() && handed != vec![0, 0, 0] {
+                bad = Some(format!("{round}:0:proof-steps({})", handed.len()));
+            }
+            match bad {
+                None => validated += 1,
+                Some(b) => {
+                    first_fail.get_or_insert(b);
+                }
+            }
+            drop(gated);
+            drop(m_ctxs);
+            for v in validators {
+                let _ = guarded(move || drop(v));
+            }
+        }
+        match first_fail {
+            None => format!("validated={validated} rounds={rounds}"),
+            Some(f) => format!("validated={validated} rounds={rounds} first={f}"),
+        }
+    }
+
+    fn exec(req: &str) -> String {
+        let t: Vec<&str> = req.split(' ').collect();
+        assert_eq!(t[0], "c03.race");
+        let ty = t[1].to_string();
+        let p: Vec<usize> = t[2..6].iter().map(|x| x.parse().unwrap()).collect();
+        let (threads, rounds, rpb, ngates) = (p[0], p[1], p[2], p[3]);
+        let seed: u64 = t[6].parse().unwrap();
+        assert!((1..=16).contains(&threads) && rounds <= 100_000 && (2..=4096).contains(&rpb) && (1..=3).contains(&ngates), "harness: bad race parameters");
+        let r = block_on_timeout(600, async move {
+            // the world's background tasks live on this runtime; the rounds block one of its workers
+            tokio::task::spawn_blocking(move || match ty.as_str() {
+                "b1" => race::<1>(threads, rounds, rpb, ngates, seed),
+                "ba8" => race::<8>(threads, rounds, rpb, ngates, seed),
+                "ba64" => race::<64>(threads, rounds, rpb, ngates, seed),
+                "ba256" => race::<256>(threads, rounds, rpb, ngates, seed),
+                ty => panic!("harness: unknown type {ty}"),
+            })
+            .await
+        });
+        match r {
+            Ok(Ok(s)) => s,
+            Ok(Err(e)) => match e.try_into_panic() {
+                Ok(p) => std::panic::resume_unwind(p),
+                Err(e) => format!("join:{e}"),
+            },
+            Err(e) => e,
+        }
+    }
+
+    #[test]
+    fn verif_c03_race() {
+        run_suite(
+            "c03_race",
+            |rng, thorough| {
+                let k = if thorough { 20 } else { 1 };
+                let mut out = vec![];
+                // (type, threads, rounds, records per batch, gates)
+                for (ty, threads, rounds, rpb, ngates) in [
+                    ("ba8", 4usize, 40usize, 16usize, 2usize),
+                    ("b1", 4, 40, 32, 3),
+                    ("ba64", 3, 30, 8, 2),
+                    ("ba256", 2, 20, 4, 1),
+                    ("b1", 8, 30, 16, 1),
+                    ("ba8", 1, 10, 16, 2),
+                ] {
+                    out.push(format!("c03.race {ty} {threads} {} {rpb} {ngates} {}", rounds * k, rng.below(1 << 40)));
+                }
+                out
+            },
+            exec,
+        );
+    }
 }
